@@ -352,11 +352,20 @@ func TestBoundedC19(t *testing.T) {
 	var rec func(level int)
 	rec = func(level int) {
 		if level == depth {
-			q := NewProvideQueue()
-			for i, o := range seq {
-				apply(q, o, seq[:i+1])
-			}
-			roundTrip(q, seq)
+			func() {
+				defer func() {
+					if r := recover(); r != nil {
+						counts["no-operation-panics"]++
+						fail("no-operation-panics", seq, "panic: %v", r)
+					}
+				}()
+				q := NewProvideQueue()
+				for i, o := range seq {
+					apply(q, o, seq[:i+1])
+				}
+				roundTrip(q, seq)
+			}()
+			counts["no-operation-panics"]++
 			return
 		}
 		for _, o := range ops {
